@@ -610,16 +610,64 @@ func sharedStateStores(fn *ssa.Function, ra *repoAnchors) []*ssa.Store {
 	return out
 }
 
+// stateEffect: a write to the shared tree pointer / the known-rules list, either a store in the
+// function itself or a call to a helper of the same package that stores one of its parameters
+// (or a value computed from them) into that field; Val is expressed in the caller's values.
+type stateEffect struct {
+	In    ssa.Instruction
+	Field *types.Var
+	Val   ssa.Value
+}
+
+func sharedStateEffects(w *World, fn *ssa.Function, ra *repoAnchors) []stateEffect {
+	var out []stateEffect
+	for _, st := range sharedStateStores(fn, ra) {
+		fa := st.Addr.(*ssa.FieldAddr)
+		out = append(out, stateEffect{st, fieldOf(fa.X.Type(), fa.Field), st.Val})
+	}
+	for _, ci := range callsIn(fn) {
+		callee := ci.Common().StaticCallee()
+		if callee == nil || callee == fn || fnPkgPath(callee) != fnPkgPath(fn) || callee.Blocks == nil {
+			continue
+		}
+		isMutator := false
+		for _, m := range ra.mutators {
+			if m == callee {
+				isMutator = true
+			}
+		}
+		if isMutator {
+			continue
+		}
+		for _, st := range sharedStateStores(callee, ra) {
+			fa := st.Addr.(*ssa.FieldAddr)
+			val := st.Val
+			for _, o := range w.Origins(st.Val, nil) {
+				if p, ok := o.(*ssa.Parameter); ok {
+					for i, q := range callee.Params {
+						if q == p && i < len(ci.Common().Args) {
+							val = ci.Common().Args[i]
+						}
+					}
+				}
+			}
+			out = append(out, stateEffect{ci, fieldOf(fa.X.Type(), fa.Field), val})
+		}
+	}
+	return out
+}
+
 func c06AllOrNothing(w *World, r *Report, ra *repoAnchors) {
 	ri := r.Rule("C06.1", 3, "a change that cannot be applied leaves tree and bookkeeping untouched: no failure is reachable after the first store to the shared state")
 	for _, fn := range ra.mutators {
 		r.Analysed(w.FnName(fn))
 		ok, msg := true, ""
-		stores := sharedStateStores(fn, ra)
+		stores := sharedStateEffects(w, fn, ra)
 		if len(stores) == 0 {
 			ok, msg = false, "the change never updates the shared state"
 		}
-		for _, st := range stores {
+		for _, se := range stores {
+			st := se.In
 			for _, ret := range returnsOf(fn) {
 				if !reachableAfter(st, ret) {
 					continue
@@ -724,9 +772,16 @@ func c06Clone(w *World, r *Report, ra *repoAnchors) {
 	// the published pointer is the clone that was modified
 	for _, fn := range ra.mutators {
 		ok := false
-		for _, st := range sharedStateStores(fn, ra) {
-			fa := st.Addr.(*ssa.FieldAddr)
-			if fieldOf(fa.X.Type(), fa.Field) == ra.treeField && isCloneResult(st.Val) {
+		for _, se := range sharedStateEffects(w, fn, ra) {
+			if se.Field != ra.treeField {
+				continue
+			}
+			for _, o := range w.Origins(se.Val, nil) {
+				if isCloneResult(o) {
+					ok = true
+				}
+			}
+			if isCloneResult(se.Val) {
 				ok = true
 			}
 		}
@@ -834,31 +889,42 @@ func c06Bookkeeping(w *World, r *Report, ra *repoAnchors) {
 				}
 			}
 			found := false
-			for _, st := range sharedStateStores(fn, ra) {
-				fa := st.Addr.(*ssa.FieldAddr)
-				if fieldOf(fa.X.Type(), fa.Field) != ra.known {
+			for _, st := range sharedStateEffects(w, fn, ra) {
+				if st.Field != ra.known {
 					continue
 				}
-				if adds {
-					if ac, isC := st.Val.(*ssa.Call); isC {
-						if b, isB := ac.Call.Value.(*ssa.Builtin); isB && b.Name() == "append" && len(ac.Call.Args) == 2 && sameLocal(ac.Call.Args[1], rules) {
-							found = true
+				// the value stored into the known-rules list is computed (possibly through locals and
+				// several steps) from an append of the added rules / a DeleteFunc over the removed ones
+				if adds && dependsOn(w, st.Val, func(x ssa.Value) bool {
+					ac, isC := x.(*ssa.Call)
+					if !isC {
+						return false
+					}
+					b, isB := ac.Call.Value.(*ssa.Builtin)
+					return isB && b.Name() == "append" && len(ac.Call.Args) == 2 && sameLocal(ac.Call.Args[1], rules)
+				}) {
+					found = true
+				}
+				if dels && dependsOn(w, st.Val, func(x ssa.Value) bool {
+					dc, _ := resultOfCall(x)
+					if dc == nil {
+						if c, isC := x.(*ssa.Call); isC {
+							dc = c
 						}
 					}
-				}
-				if dels {
-					if dc, _ := resultOfCall(st.Val); dc != nil && strings.HasPrefix(callName(dc.Common()), "slices.DeleteFunc") {
-						if f := closureFn(dc.Common().Args[1]); f != nil {
-							// the closure consults the same rule list
-							if mc, isMC := dc.Common().Args[1].(*ssa.MakeClosure); isMC {
-								for _, bnd := range mc.Bindings {
-									if sameLocal(bnd, rules) || bindingOf(bnd, rules) {
-										found = true
-									}
-								}
+					if dc == nil || !strings.HasPrefix(callName(dc.Common()), "slices.DeleteFunc") {
+						return false
+					}
+					if mc, isMC := dc.Common().Args[1].(*ssa.MakeClosure); isMC {
+						for _, bnd := range mc.Bindings {
+							if sameLocal(bnd, rules) || bindingOf(bnd, rules) {
+								return true
 							}
 						}
 					}
+					return false
+				}) {
+					found = true
 				}
 			}
 			if !found {
